@@ -18,3 +18,17 @@ package base
 //@   pure
 //@ iface ReadStat.AvgRT() r
 //@   pure
+
+// A block-error option only writes the block error it is applied to.
+//@ callback BlockErrorOption(b)
+//@   modifies fields(b)
+
+// Ghost view of write statistics: gAdded[receiver][event] is the total amount recorded through WriteStat.AddCount.
+// (The relation between this total and what the sliding window later reports is property C08.)
+//@ ghost var gAdded (Array Int (Array Int Int))
+//@ iface WriteStat.AddCount(event, count)
+//@   ensures gAdded == upd(old(gAdded), dynptr(this), upd(sel(old(gAdded), dynptr(this)), event, sel(sel(old(gAdded), dynptr(this)), event) + count))
+//@   modifies gAdded
+//@ iface StatNode.AddCount(event, count)
+//@   ensures gAdded == upd(old(gAdded), dynptr(this), upd(sel(old(gAdded), dynptr(this)), event, sel(sel(old(gAdded), dynptr(this)), event) + count))
+//@   modifies gAdded
